@@ -127,12 +127,17 @@ func newC01env(rep *vh.Report, cfg c01cfg, known []*msgInfo) (*c01env, error) {
 		}
 		e.drw = drw
 	}
-	e.fw = &frame.Writer{ByteWriter: e.w, DialectRW: e.drw}
+	// Write() takes frames of either version whatever the writer's own OutVersion (which only governs WriteMessage): the
+	// writers are configured with none / v1 / v2 in rotation
+	c01writerCounter++
+	e.fw = &frame.Writer{ByteWriter: e.w, DialectRW: e.drw, OutVersion: frame.WriterOutVersion(c01writerCounter % 3), OutSystemID: 1}
 	if err := e.fw.Initialize(); err != nil {
 		return nil, err
 	}
 	return e, nil
 }
+
+var c01writerCounter int
 
 // check writes one frame through the real writer, compares with the reference image,
 // reads it back through a fresh real reader and compares field for field.
